@@ -49,6 +49,7 @@ class World:
         self.file = file
         self.emit = emit or {}                # label -> emit pattern (C19)
         self.on_run = on_run                  # optional callback(task) inside run()
+        self.child = None                     # index of the virtual child executing (E3)
 
     def rec(self, *ev):
         self.log.append(ev)
@@ -117,7 +118,9 @@ def _run(self):
         vals.append(v)
     if self.label in WORLD.faults:
         WORLD.rec('raise', k)
-        raise Boom(self.label)
+        # chained, so that a coordinator reporting the *cause* of the task's own
+        # exception instead of the exception itself is visible
+        raise Boom(self.label) from KeyError('inner-cause')
     value = ('N', k[0], k[1], ctx_view(self), tuple(vals), WORLD.epoch)
     WORLD.rec('end', k)
     return value
